@@ -19,6 +19,7 @@ def run(ctx):
     ctx.rule("aead-operands", "operand wiring in both backends")
     ctx.rule("aead-tag", "tag position in both backends")
     ctx.rule("prim-binding", "name/type/length binding of hash and cipher impls; default HMAC/HKDF/REKEY")
+    ctx.rule("verify-then-decrypt-only", "only the audited AEAD entry points of either backend are called from Cipher impls")
     ctx.rule("sibling-agreement", "same-named impls of different backends agree on their constants")
     ctx.rule("resolver-table", "choice -> impl -> name() literal")
     ctx.rule("fallback-structure", "preferred first, fallback only on None, same choice")
@@ -28,6 +29,9 @@ def run(ctx):
     for cfg in ctx.cfgs:
         F = ctx.facts[cfg]
         aead.check_wrappers(ctx, cfg, {"nonce": 1, "operands": 1, "tag": 1})
+        # the two backends are interchangeable only through the entry points whose operands are audited above
+        from . import coverage
+        coverage.raw_primitive_calls(ctx, cfg)
         prims.check_hashes(ctx, cfg)
         prims.check_cipher_binding(ctx, cfg)
         from . import nonce
